@@ -5,6 +5,7 @@ package desync
 
 import (
 	"io"
+	"net/http"
 	"os"
 	"path/filepath"
 )
@@ -42,4 +43,17 @@ func VerifSelf_FS() {
 	n, err := f.ReadAt(buf, 2)
 	vAssert(n == 1 && err == io.EOF, "ReadAt short read gives EOF")
 	vCover("fs")
+}
+
+func VerifSelf_HTTP() {
+	rt := &verifRT{f: func(r *http.Request) (*http.Response, error) { return verifResp(200, []byte{0x61, 0x62}), nil }}
+	s := verifHTTPStore(rt, StoreOptions{ErrorRetry: 1, Uncompressed: true})
+	good := NewChunk([]byte{0x61, 0x62})
+	c, err := s.GetChunk(good.ID())
+	if err != nil {
+		vNote("err: " + err.Error())
+	}
+	vAssert(err == nil && c != nil, "http get works")
+	vAssert(rt.calls == 1, "one call")
+	vCover("x")
 }
